@@ -408,6 +408,14 @@ func jobs(r *ev.Run) []jobSpec {
 					continue
 				}
 				out = append(out, jobSpec{&c, k, byz == 0})
+				// gossip gives no order between senders: the same search with the OVERTAKE deviation
+				// (the newest message of an inbox, e.g. a peer's decided message, is delivered ahead
+				// of the single messages still waiting there), committee without a silent member
+				if byz == 0 && *kFlag < 0 {
+					o := c
+					o.Overtake = true
+					out = append(out, jobSpec{&o, 2, false})
+				}
 				// canonical extension to the role's higher rounds: silent leaders, k<=1
 				if si == 0 && (byz == 0 || byz == 1) {
 					e := c
